@@ -28,7 +28,10 @@ def roundtrip_ok(S):
     J1 = serialize_json(E1)
     if not is_json(J1):
         return False
-    E2 = parse_element(deref(jcopy(J1)))
+    try:
+        E2 = parse_element(deref(jcopy(J1)))
+    except KeyError:
+        return False  # a $ref of the serialized document does not resolve
     J2 = serialize_json(E2)
     if not jeq(J1, J2):
         return False
@@ -104,6 +107,7 @@ if f2: S["maxProperties"] = n
     "bools": ("b: bool, c: bool", [], 'S = {"properties": {"p": b}, "items": c, "contains": b, "propertyNames": c, "not": b, "dependencies": {"a": c}}', "quick"),
     "empties": ("f: bool", [], 'S = {"default": [], "enum": [[], {}, "", 0, False, None], "const": {}, "required": [], "items": [], "properties": {}, "patternProperties": {}, "dependencies": {}, "additionalItems": f}', "quick"),
     "falsy_defaults_everywhere": ("f: bool", [], 'S = {"type": "object", "title": "FD", "default": {}, "properties": {"a": {"type": "array", "default": []}, "b": {"type": "string", "default": ""}, "c": {"type": ["boolean", "null"], "default": f}, "d": {"anyOf": [{"type": "integer"}, {"type": "null"}], "default": (None if f else 0)}, "e": {"type": "object", "title": "FE", "default": {}}}}', "quick"),
+    "cats_and_dogs": ("m: int", [], 'S = {"type": "object", "title": "House", "properties": {"cats": {"type": "array", "items": {"type": "object", "title": "Cat", "properties": {"n": {"minimum": m}}}}, "dogs": {"type": "array", "items": {"type": "object", "title": "Dog", "properties": {"n": {"minimum": m}}}}, "l": {"type": "object", "title": "L", "properties": {"c": {"type": "object", "title": "LC"}}}, "r": {"type": "object", "title": "R", "properties": {"c": {"type": "object", "title": "RC"}}}}}', "quick"),
     "floats": ("m: int", [], 'S = {"type": "number", "minimum": 0.5, "maximum": m, "multipleOf": 0.25, "const": 1.0, "enum": [1, 1.0, True]}', "thorough"),
 }
 
